@@ -699,6 +699,7 @@ func init() {
 			"(with challengeLength expanded) and SuiteConfig.Validate is enumerated; path conditions are evaluated three-valued over interval cells obtained by cutting each length axis at every constant occurring in the code and in the property (and its neighbours); " +
 			"on each cell exactly one path must be feasible and its return class (nil / non-nil) must equal the property's predicate (R14.1: 32 flag sets x formats x password hashes x single fields and all field pairs; R14.2: full product). " +
 			"R14.3: from GenerateOCRA and ValidateOCRA, with parameters bound through every call and closure, the value handed to OCRAInput.Validate is the caller's own input, validated against Config() of the caller's own suite, both validators gate pool/HMAC use, and no other branch on the path conditions on the input. " +
+			"R14.5: the exported enumerators ChallengeNone…ChallengeHex10 and PasswordNone…PasswordSHA512 have the documented numeric values (the REST fields challenge_format / password_hash and the JSON form of SuiteConfig carry the bare numbers, so a regrouped const block silently selects other admitted lengths); R14.6: NewSuite returns exactly the configuration it was given (it neither completes nor replaces it around validating it). " +
 			"Abstract interpretation only; nothing is executed. Domain: defined challenge formats / password hashes (others are documented as lenient); user-defined Suite implementations excluded by the property.",
 		assume:   []string{"enumerators outside the defined ChallengeFormat / PasswordHashAlgorithm constants are outside the property's domain"},
 		quick:    []Config{CfgNative},
